@@ -44,7 +44,7 @@ func main() {
 
 func cases(tier string) int {
 	if tier == "thorough" {
-		return 20000
+		return 120000
 	}
 	return 6000
 }
